@@ -34,10 +34,13 @@ def run(rng, tier, res=None):
         K = rng.choice([1, 2, 3])
         Y = np.array([rng.randrange(K) for _ in range(n)], dtype=int)
         pct = rng.choice([0.0, 1.0, 0.5, 0.1, 0.9, rng.random(), rng.randint(0, n) / n, 0.7, 0.3, 0.29, 0.58])
-        seed = rng.randint(0, 10 ** 6)
+        seed = rng.choice([0, 0, 1, rng.randint(0, 10 ** 6), rng.randint(0, 10 ** 6), rng.randint(0, 2 ** 31 - 1)])
+        np.random.seed(rng.randint(1, 10 ** 6))      # the result must not depend on the global RNG state before the call
         Xb, Yb = X.tobytes(), Y.tobytes()
         X1, X2, Y1, Y2, I1, I2 = splitter.split_with_index(X, Y, pct, seed)
+        np.random.seed(rng.randint(1, 10 ** 6))
         again = splitter.split_with_index(X, Y, pct, seed)
+        np.random.seed(rng.randint(1, 10 ** 6))
         X1b, X2b, Y1b, Y2b = splitter.split(X, Y, pct, seed)
         Xm, Ym = splitter.merge(X1, X2, Y1, Y2)
         np.random.seed(seed)
@@ -125,7 +128,8 @@ def run(rng, tier, res=None):
         K = rng.randint(1, min(3, n))
         labels1 = [1 + (i % K) for i in range(n)]
         rng.shuffle(labels1)
-        ids = rng.sample(range(0, 1000), n)
+        ids = rng.sample(range(0, 1000), n) if rng.random() < 0.5 else \
+            [rng.choice([rng.randint(0, 2 ** 31 - 1), 2 ** 24 + 1 + rng.randint(0, 1000), 123456789, rng.randint(0, 99)]) for _ in range(n)]
         feats = [[struct.unpack("<f", struct.pack("<f", rng.choice([rng.gauss(0, 10), rng.uniform(-1e-3, 1e-3), float(rng.randint(-5, 5)), 1e10 * rng.random()])))[0]
                   for _ in range(d)] for _ in range(n)]
         raw = struct.pack("<iii", n, K, d)
